@@ -108,13 +108,13 @@ func LoadProg(repo string) (*Prog, error) {
 	}
 	sort.Slice(p.FuncList, func(i, j int) bool { return p.FuncName(p.FuncList[i]) < p.FuncName(p.FuncList[j]) })
 
-	p.preassignIDs()
 	cpath := filepath.Join(repo, "verif_contracts.go")
 	cs, err := ParseContractsFile(cpath)
 	if err != nil {
 		return nil, err
 	}
 	p.Contracts = cs
+	p.preassignIDs()
 	return p, nil
 }
 
@@ -179,6 +179,33 @@ func (p *Prog) relTypeString(t types.Type) string {
 
 // LookupType resolves a type expression in package scope (e.g. "*Value", "[]string").
 func (p *Prog) LookupType(expr string) (types.Type, error) {
+	expr = strings.TrimSpace(expr)
+	// qualified names of imported packages (types.Eval at package scope does not see file-level imports)
+	if strings.HasPrefix(expr, "*") {
+		t, err := p.LookupType(expr[1:])
+		if err != nil {
+			return nil, err
+		}
+		return types.NewPointer(t), nil
+	}
+	if strings.HasPrefix(expr, "[]") {
+		t, err := p.LookupType(expr[2:])
+		if err != nil {
+			return nil, err
+		}
+		return types.NewSlice(t), nil
+	}
+	if i := strings.Index(expr, "."); i > 0 && !strings.ContainsAny(expr, "[]( ") {
+		pkgName, name := expr[:i], expr[i+1:]
+		for _, imp := range p.Types.Imports() {
+			if imp.Name() == pkgName {
+				if obj := imp.Scope().Lookup(name); obj != nil {
+					return obj.Type(), nil
+				}
+			}
+		}
+		return nil, fmt.Errorf("unknown type %s", expr)
+	}
 	tv, err := types.Eval(p.Fset, p.Types, token.NoPos, "*new("+expr+")")
 	if err != nil {
 		return nil, err
@@ -231,6 +258,78 @@ func (p *Prog) preassignIDs() {
 					}
 				}
 			}
+		}
+	}
+	// every named type of the package (and its pointer type), the basic types, and the types/strings named in contracts
+	scope := p.Types.Scope()
+	for _, n := range scope.Names() {
+		if tn, ok := scope.Lookup(n).(*types.TypeName); ok {
+			tset[types.TypeString(tn.Type(), nil)] = tn.Type()
+			pt := types.NewPointer(tn.Type())
+			tset[types.TypeString(pt, nil)] = pt
+		}
+	}
+	for _, bt := range types.Typ {
+		if bt != nil && bt.Kind() != types.Invalid {
+			tset[types.TypeString(bt, nil)] = bt
+		}
+	}
+	var walk func(x Expr)
+	walk = func(x Expr) {
+		switch n := x.(type) {
+		case *EStr:
+			sset[n.V] = true
+			if t, err := p.LookupType(n.V); err == nil && t != nil {
+				tset[types.TypeString(t, nil)] = t
+			}
+		case *EBin:
+			walk(n.L)
+			walk(n.R)
+		case *EUn:
+			walk(n.X)
+		case *ECall:
+			for _, a := range n.Args {
+				walk(a)
+			}
+		case *EField:
+			walk(n.X)
+		case *EIndex:
+			walk(n.X)
+			walk(n.I)
+		case *EQuant:
+			walk(n.Body)
+		}
+	}
+	for _, fc := range p.Contracts.Funcs {
+		for _, cl := range fc.Req {
+			walk(cl.Expr)
+		}
+		for _, cl := range fc.Ens {
+			walk(cl.Expr)
+		}
+		for _, cls := range fc.Inv {
+			for _, cl := range cls {
+				walk(cl.Expr)
+			}
+		}
+		for _, at := range fc.At {
+			walk(at.Clause.Expr)
+		}
+		for _, g := range fc.GhostUpd {
+			walk(g.Expr)
+		}
+	}
+	for _, ti := range p.Contracts.TypeInvs {
+		for _, cl := range ti.Clauses {
+			walk(cl.Expr)
+		}
+	}
+	for _, ax := range p.Contracts.Axioms {
+		walk(ax.Expr)
+	}
+	for _, sf := range p.Contracts.Specs {
+		if sf.Body != nil {
+			walk(sf.Body)
 		}
 	}
 	var tk []string
